@@ -252,7 +252,8 @@ class Fx:
             for v in self.ex.absvals(fr, t['args'][0]):
                 ids |= self._lock_ids_of_val(v)
             out.append(('atomic-read', {'ids': ids}))
-        if decl == 'std::mem::replace' or decl == 'std::mem::swap' or decl == 'std::mem::take':
+        if decl in ('std::mem::replace', 'std::mem::swap', 'std::mem::take', 'std::option::Option::take', 'std::option::Option::replace',
+                    'std::option::Option::insert', 'std::option::Option::get_or_insert', 'std::option::Option::take_if'):
             srcs = self.guard_sources(fr, t['args'][0])
             if srcs:
                 out.append(('guarded-replace', {'locks': srcs, 'value': keyvals(1)}))
